@@ -175,6 +175,15 @@ impl Record {
         let start =
             u64::try_from(start).map_err(|e| io::Error::new(io::ErrorKind::InvalidInput, e))?;
 
+        // The start position must be in the sequence (or be the first position of an empty
+        // sequence); otherwise, the offset points into the next definition or record.
+        if start >= self.length.max(1) {
+            return Err(io::Error::new(
+                io::ErrorKind::InvalidInput,
+                "invalid start position",
+            ));
+        }
+
         let line_base_count = self.line_base_count.get();
         let line_width = self.line_width.get();
         let pos = self.position() + start / line_base_count * line_width + start % line_base_count;
